@@ -12,6 +12,8 @@ import (
 
 var c09Durs = []time.Duration{
 	math.MinInt64, durNoExp - 1, durNoExp, durNoExp + 1, durDef - 1, durDef, durDef + 1, -1, 0, 1, 2, time.Hour,
+	// magnitudes at which a unit conversion (to ms, s) or a detour through float64 would lose or gain a nanosecond
+	time.Millisecond - 1, time.Second + 1, 1<<53 + 1,
 	time.Duration(math.MaxInt64 - epochNs - 4*int64(time.Hour)), // largest ttl whose instant stays representable after the clock steps used here
 	math.MaxInt64, // call time + d overflows int64 nanoseconds: the entry never expires
 }
